@@ -1807,6 +1807,118 @@ func blkCase(variant string, alt bool, body, place int) Case {
 	return Case{Mode: "splice", CT: "text/html", Strings: fixedStrings, SL: fixedSL, Main: main}
 }
 
+// ---- a layout and the blocks its partial stored ------------------------------------------------------
+//
+// "every later contentOf(name, data) emits what the stored block renders with data added": the layout of a partial is
+// rendered after the partial's text, as part of the same partial call, so a block the text stored with contentFor is
+// what the layout's contentOf emits (the page defines, the layout places: the use contentFor exists for). Fixed
+// templates with outputs derived by hand; only stored blocks are asserted, not variables.
+type SeesCase struct {
+	Name  string `json:"name"`  // the content name
+	Block int    `json:"block"` // index into seesBlocks: what the stored block holds
+	Def   int    `json:"def"`   // how the partial's text defines it: 0 silent tag, 1 output tag, 2 defined twice (the later wins), 3 inside a nested partial's text whose OWN layout places it
+	Use   int    `json:"use"`   // how the layout uses it: 0 contentOf(name), 1 with data, 2 with a default block, 3 twice, 4 in the layout's layout
+	CT    string `json:"ct"`
+	Twice bool   `json:"twice"` // the partial is called twice with different data: each call's layout places that call's block
+}
+
+var seesBlocks = []struct{ src, out1, out2 string }{
+	{"T", "T", "T"},
+	{"T:<%= n %>", "T:1", "T:1"},               // reads the data of contentOf
+	{"<i>'q'</i>", "<i>'q'</i>", "<i>'q'</i>"}, // stored text is inserted as it is
+	{"[<%= who %>]", "[first]", "[second]"},    // reads the data of the partial call that defined it
+	{"<%= for (i) in [1, 2] { %><%= i %><% } %>", "12", "12"},
+}
+
+func checkSees(r *vk.Run, c SeesCase) *vk.Fail {
+	defer r.Watch("sees", c)()
+	b := seesBlocks[c.Block]
+	nameLit := strconv.Quote(c.Name)
+	def := `<% contentFor(` + nameLit + `) { %>` + b.src + `<% } %>`
+	switch c.Def {
+	case 1:
+		def = `<%= contentFor(` + nameLit + `) { %>` + b.src + `<% } %>`
+	case 2:
+		def = `<% contentFor(` + nameLit + `) { %>old<% } %>` + def
+	}
+	use := `<%= contentOf(` + nameLit + `) %>`
+	switch c.Use {
+	case 1, 4:
+		use = `<%= contentOf(` + nameLit + `, {n: 1}) %>`
+	case 2:
+		use = `<%= contentOf(` + nameLit + `, {n: 1}) { %>default<% } %>`
+	case 3:
+		use = `<%= contentOf(` + nameLit + `, {n: 1}) %>+<%= contentOf(` + nameLit + `, {n: 1}) %>`
+	}
+	if (c.Block == 1) && c.Use == 0 {
+		return nil // the block reads n: contentOf must supply it
+	}
+	parts := map[string]string{"page.html": def + "body", "frame.html": "<h>" + use + "</h><b><%= yield %></b>"}
+	call := func(who string) string {
+		return `<%= partial("page.html", {layout: "frame.html", who: "` + who + `"}) %>`
+	}
+	one := func(blockOut string) string {
+		placed := blockOut
+		if c.Use == 3 {
+			placed = blockOut + "+" + blockOut
+		}
+		return "<h>" + placed + "</h><b>body</b>"
+	}
+	switch {
+	case c.Use == 4:
+		// the layout has a layout of its own, which places the block
+		parts["frame.html"] = "<f><%= yield %></f>"
+		parts["outer.html"] = "<h>" + use + "</h><o><%= yield %></o>"
+		parts["page.html"] = def + "body"
+		call = func(who string) string {
+			return `<%= partial("mid.html", {layout: "outer.html", who: "` + who + `"}) %>`
+		}
+		parts["mid.html"] = def + `<%= partial("inner.html", {layout: "frame.html"}) %>`
+		parts["inner.html"] = "body"
+		one = func(blockOut string) string { return "<h>" + blockOut + "</h><o><f>body</f></o>" }
+	case c.Def == 3:
+		// the block is stored by the text of a partial nested in the page; that nested partial's own layout places it
+		parts["page.html"] = `<%= partial("inner.html", {layout: "frame.html", who: who}) %>!`
+		parts["inner.html"] = def + "body"
+		call = func(who string) string { return `<%= partial("page.html", {who: "` + who + `"}) %>` }
+		one = func(blockOut string) string {
+			placed := blockOut
+			if c.Use == 3 {
+				placed = blockOut + "+" + blockOut
+			}
+			return "<h>" + placed + "</h><b>body</b>!"
+		}
+	}
+	src := "{" + call("first") + "}"
+	want := "{" + one(b.out1) + "}"
+	if c.Twice {
+		src += "{" + call("second") + "}"
+		want += "{" + one(b.out2) + "}"
+	}
+	data := map[string]interface{}{
+		"partialFeeder": func(name string) (string, error) {
+			t, ok := parts[name]
+			if !ok {
+				return "", fmt.Errorf("no partial %q", name)
+			}
+			return t, nil
+		},
+	}
+	if c.CT != "" {
+		data["contentType"] = c.CT
+	}
+	res := vk.Safe(func() (string, error) { return plush.Render(src, plush.NewContextWith(data)) })
+	key, _ := json.Marshal(c)
+	r.Count(string(key), "a layout places the blocks its partial stored")
+	r.Sample(func() interface{} {
+		return map[string]interface{}{"template": src, "partials": parts, "expected": want}
+	})
+	if res.Panicked() || res.Err != nil || res.Out != want {
+		return &vk.Fail{Kind: "sees", Case: c, Msg: fmt.Sprintf("%s with partials %v gave %s, want %q (the layout's contentOf emits the block the partial's text stored)", src, parts, res, want)}
+	}
+	return nil
+}
+
 // boundaryCases: empty bodies, blocks and layouts that are nothing but the yield, nil in a data map, odd content names.
 func boundaryCases() []Case {
 	mk := func(ct string, main ...Item) Case {
@@ -1873,13 +1985,23 @@ func bigCase(kind int, held bool) Case {
 
 // ---- the test --------------------------------------------------------------------
 
-const rule = "A case is a tree of documents: main template, partial bodies (nesting <= 3), layouts (a layout may wrap its yield in a partial that has a layout), contentFor blocks, contentOf default blocks, blocks of recording Go block helpers. Items: literal text (HTML/JS specials), <%= %> of context strings with HTML/JS specials, of loop variables, of data keys, a tick() counter (detects double / missing / cached evaluation), for loops, if/else, let (partials: must not leak; in the main document also of the names stored blocks and layouts read, between definition and use), partial(name, data[, layout]) with name = [directory part incl. dots, upper case, './', '_'] p<N> [extension in {.js,.html,.md,none,.js.html,.html.js}] and data keys shadowing caller variables (g*) or fresh (f*), values strings / ints / caller variables / nil (nil only for names the caller lacks); in a quarter of the cases the data map, layout entry included, is HELD in a variable and used by TWO calls; in a quarter the same partial NAME is called a second time with ANOTHER data map, optionally after a let of the caller in between (keys not bound by every call are read guarded); 0-3 contentFor names per document (not only identifiers: upper case, dot, spaces, colon, the empty name) incl. redefinition, contentFor also in an output tag, contentOf before/after the definition, with/without data (c*, shadowing s0), data held in a variable and used by two calls, with default block, undefined name; after a contentOf with data the CALLER reads a data key guarded (must be unset); block helpers that render their block once / twice / never / in a child scope with data (BlockWith) / take an argument / are a method of a context value; partial, contentOf and block helper calls also in SILENT tags (evaluated once, nothing inserted); partial and contentOf calls also written as <% let r = CALL %><%= r %>~<%= r %> (evaluated once, inserted twice) and as the result of a function defined and called on the spot; empty documents and blocks. contentType in {unset,text/html,application/javascript,text/javascript, the same with '; charset=..' parameters, text/plain}. ORACLE (metamorphic): every composition is replaced by an oracle helper that renders the composed-in text itself with plush.Render in a child of the caller's scope extended with data and leaves a placeholder which is substituted textually, unescaped, exactly once; JSEscapeString is applied by the oracle once per partial (and layout) whose name has a last extension other than .js / none under a JavaScript media type; layouts get the result as yield; an undefined contentOf without default must fail. For data-free cases additionally the TEXTUAL inline: the partial/layout/block source pasted in place of the tag must render the same. Whole outputs byte for byte, errors as error/no-error, plus the list of strings the block helpers received. (E) config matrix ct x ext x layout mode x layout ext x 11 bodies (incl. a call site in a loop fed from the loop variable, a name called twice with different data) x 4 data maps; (E) name spellings x content types with parameters x layout spellings; (E) block helper variants x tag opener x bodies x places; (E) boundaries (empty bodies, yield-only / two-yield layouts, nil data, odd content names) and one call site executed 1100 times; (E) all sequences of 16 content operations up to length 3 (thorough 4) x 3 placements; (R) random trees, random data-free trees with textual inlining, random trees rendered TWICE with plush.CacheEnabled on (second render on the cached templates). Not asserted (never generated): what a layout sees of the partial's data or contentFor names, contentFor inside blocks/loops, scope of a stored block other than names nobody rebinds below the main document, visibility of the data map in a contentOf default block, let inside blocks, nil bound to a name the caller has, names that differ only by surrounding spaces. Non-trivial = at least one composition was executed and rendered non-empty text, or the case must fail. Distinct by case."
+const rule = "A case is a tree of documents: main template, partial bodies (nesting <= 3), layouts (a layout may wrap its yield in a partial that has a layout), contentFor blocks, contentOf default blocks, blocks of recording Go block helpers. Items: literal text (HTML/JS specials), <%= %> of context strings with HTML/JS specials, of loop variables, of data keys, a tick() counter (detects double / missing / cached evaluation), for loops, if/else, let (partials: must not leak; in the main document also of the names stored blocks and layouts read, between definition and use), partial(name, data[, layout]) with name = [directory part incl. dots, upper case, './', '_'] p<N> [extension in {.js,.html,.md,none,.js.html,.html.js}] and data keys shadowing caller variables (g*) or fresh (f*), values strings / ints / caller variables / nil (nil only for names the caller lacks); in a quarter of the cases the data map, layout entry included, is HELD in a variable and used by TWO calls; in a quarter the same partial NAME is called a second time with ANOTHER data map, optionally after a let of the caller in between (keys not bound by every call are read guarded); 0-3 contentFor names per document (not only identifiers: upper case, dot, spaces, colon, the empty name) incl. redefinition, contentFor also in an output tag, contentOf before/after the definition, with/without data (c*, shadowing s0), data held in a variable and used by two calls, with default block, undefined name; after a contentOf with data the CALLER reads a data key guarded (must be unset); block helpers that render their block once / twice / never / in a child scope with data (BlockWith) / take an argument / are a method of a context value; partial, contentOf and block helper calls also in SILENT tags (evaluated once, nothing inserted); partial and contentOf calls also written as <% let r = CALL %><%= r %>~<%= r %> (evaluated once, inserted twice) and as the result of a function defined and called on the spot; empty documents and blocks. contentType in {unset,text/html,application/javascript,text/javascript, the same with '; charset=..' parameters, text/plain}. ORACLE (metamorphic): every composition is replaced by an oracle helper that renders the composed-in text itself with plush.Render in a child of the caller's scope extended with data and leaves a placeholder which is substituted textually, unescaped, exactly once; JSEscapeString is applied by the oracle once per partial (and layout) whose name has a last extension other than .js / none under a JavaScript media type; layouts get the result as yield; an undefined contentOf without default must fail. For data-free cases additionally the TEXTUAL inline: the partial/layout/block source pasted in place of the tag must render the same. Whole outputs byte for byte, errors as error/no-error, plus the list of strings the block helpers received. (E) config matrix ct x ext x layout mode x layout ext x 11 bodies (incl. a call site in a loop fed from the loop variable, a name called twice with different data) x 4 data maps; (E) name spellings x content types with parameters x layout spellings; (E) block helper variants x tag opener x bodies x places; (E) boundaries (empty bodies, yield-only / two-yield layouts, nil data, odd content names) and one call site executed 1100 times; (E) all sequences of 16 content operations up to length 3 (thorough 4) x 3 placements; (R) random trees, random data-free trees with textual inlining, random trees rendered TWICE with plush.CacheEnabled on (second render on the cached templates). (E) a layout places the blocks its partial stored: fixed page / frame templates with outputs derived by hand - a block the partial's text stores with contentFor is what the contentOf of that partial's layout (and of the layout's layout) emits, with the data of contentOf added, for each call of the partial its own; Not asserted (never generated): what a layout sees of the partial's data or variables, contentFor names in generated trees, contentFor inside blocks/loops, scope of a stored block other than names nobody rebinds below the main document, visibility of the data map in a contentOf default block, let inside blocks, nil bound to a name the caller has, names that differ only by surrounding spaces. Non-trivial = at least one composition was executed and rendered non-empty text, or the case must fail. Distinct by case."
 
 func setup(t *testing.T) *vk.Run {
 	r := vk.Start(t, "C17", rule,
 		"plush.Render of composition-free source (text, <%= %>, for, if, let) is the reference for inline rendering (covered by C01/C02/C07/C08/C09)",
 		"html/template.JSEscapeString is the reference JavaScript escaper",
 		"helper results of type string without HTML specials (the placeholders) pass through <%= %> unchanged")
+	r.Replayer("sees", func(raw json.RawMessage) *vk.Fail {
+		var c SeesCase
+		if f := vk.Decode(raw, &c); f != nil {
+			return f
+		}
+		if c.Block < 0 || c.Block >= len(seesBlocks) || c.Def < 0 || c.Def > 3 || c.Use < 0 || c.Use > 4 || c.Def == 3 && c.Use == 4 || strings.ContainsAny(c.Name, "\x00\n") || c.CT != "" && c.CT != "text/html" {
+			return &vk.Fail{Kind: "decode", Msg: "bad case"}
+		}
+		return checkSees(r, c)
+	})
 	r.Replayer("compose", func(raw json.RawMessage) *vk.Fail {
 		var c Case
 		if f := vk.Decode(raw, &c); f != nil {
@@ -1984,6 +2106,27 @@ func TestProp(t *testing.T) {
 		i /= 2
 		r.Check(check(r, blkCase(blkVariants[i], alt, body, place)))
 	})
+
+	// (E) a layout places the blocks its partial stored
+	var sees []SeesCase
+	for _, name := range []string{"head", "side bar", "A.b"} {
+		for bi := range seesBlocks {
+			for def := 0; def < 4; def++ {
+				for use := 0; use < 5; use++ {
+					for _, ct := range []string{"", "text/html"} {
+						for _, tw := range []bool{false, true} {
+							if def == 3 && use == 4 {
+								continue
+							}
+							sees = append(sees, SeesCase{Name: name, Block: bi, Def: def, Use: use, CT: ct, Twice: tw})
+						}
+					}
+				}
+			}
+		}
+	}
+	r.Subspace("a layout places the blocks its partial stored: 3 content names x 5 block bodies x 4 ways of defining x 5 ways of using (plain, with data, with a default block, twice, from the layout's own layout) x content type x the partial called once / twice with different data", int64(len(sees)), true)
+	r.Parallel(int64(len(sees)), 0, func(i int64) { r.Check(checkSees(r, sees[i])) })
 
 	// (E) boundaries and many siblings
 	bcs := boundaryCases()
